@@ -86,6 +86,10 @@ export class Hash256Writer {
   private bytesHashed = 0;
   private finished = false;
 
+  position(): number {
+    return this.bytesHashed;
+  }
+
   updateTag(value: string): void {
     this.updateByte(1);
     this.updateUtf8WithLength(value);
